@@ -448,6 +448,15 @@ def grep(
         _grep(normalized_pattern, files, color=False)
 
 
+def _parse_cfg_version_info(
+    cfg: config.Config,
+) -> typ.Union[version.V1VersionInfo, version.V2VersionInfo]:
+    if cfg.is_new_pattern:
+        return v2version.parse_version_info(cfg.current_version, cfg.version_pattern)
+    else:
+        return v1version.parse_version_info(cfg.current_version, cfg.version_pattern)
+
+
 @cli.command()
 @verbose_option
 @ignore_vcs_tag_option
@@ -476,13 +485,13 @@ def show(
     if env:
         logger.warning("Depricated: -e/--env use --environ instead. ")
         logger.warning("    See https://github.com/mbarkhau/bumpver/issues/224")
-        version_info = v2version.parse_version_info(cfg.current_version, cfg.version_pattern)
+        version_info = _parse_cfg_version_info(cfg)
         for key, val in version_info._asdict().items():
             click.echo(f"{key.upper()}={val if val else ''}")
         click.echo(f"CURRENT_VERSION={cfg.current_version}")
         click.echo(f"PEP440_VERSION={cfg.pep440_version}")
     elif environ:
-        version_info = v2version.parse_version_info(cfg.current_version, cfg.version_pattern)
+        version_info = _parse_cfg_version_info(cfg)
         for key, val in version_info._asdict().items():
             click.echo(f"{key.upper()}={'' if (val is False or val is None) else val}")
         click.echo(f"CURRENT_VERSION={cfg.current_version}")
